@@ -20,7 +20,7 @@ ASSUMPTIONS = ["outputs are compared by value on the signal each build advertise
 
 
 def budget(tier):
-    return {"examples": 1000 if tier == "quick" else 16000, "wall_s": 110 if tier == "quick" else 1500}
+    return {"examples": 1000 if tier == "quick" else 16000, "wall_s": 110 if tier == "quick" else 900}
 
 
 @st.composite
